@@ -729,6 +729,8 @@ class Interp:
             return False
         if not isinstance(cls, type):
             raise SymRaise(TypeError("isinstance() arg 2 must be a type, a tuple of types, or a union"))
+        if getattr(v, "pysym_pytype", None) is not None:
+            return issubclass(v.pysym_pytype, cls)
         if isinstance(v, Sym):
             if isinstance(v, SOpaque):
                 raise Unsupported("isinstance on opaque value")
